@@ -235,7 +235,7 @@ func RunCheck(o CheckOpts) int {
 		results = append(results, r)
 	}
 	total := len(names)
-	if total == 0 || total < floor {
+	if o.OnlyFunc == "" && (total == 0 || total < floor) {
 		violations++
 		rp := filepath.Join(outDir, "vacuity.json")
 		_ = os.WriteFile(rp, []byte(fmt.Sprintf(`{"property":%q,"obligation":"vacuity","detail":"%d obligations generated, floor %d"}`, o.Prop, total, floor)), 0o644)
